@@ -174,7 +174,7 @@ func rulePanicForeign(c *Ctx, r *R) {
 					r.ok("payload-exhaustive:"+key, site, why)
 					continue
 				}
-				if why, ok := panicForeignReviewed[key]; ok {
+				if why, ok := reviewedLookup(panicForeignReviewed, key); ok {
 					r.ok("reviewed:"+key, site, why)
 					continue
 				}
